@@ -1,20 +1,24 @@
-"""Regenerate mxverif/alpha_ref.json from /repo's current sources (run by hand after the rules were (re)written)."""
+"""Regenerate mxverif/alpha_ref.json from /repo's current sources (run by hand after the rules were (re)written).
+
+Per module: every function's alpha-hash and local names (for the rename-back step) and `__functions__`, the list of all
+function / method names of the reference tree (a private function not in that list is a new helper and is inlined)."""
 import ast, json, sys
 sys.path.insert(0, "/verif")
 from pathlib import Path
-from mxverif.normalise import Cleaner, alpha_hash, walk_functions, REF_PATH
+from mxverif.normalise import pre_normalise, alpha_hash, walk_functions, REF_PATH
 root = Path("/repo/src/mxlpy")
 out = {}
 for p in sorted(root.rglob("*.py")):
     rel = str(p.relative_to(root))
-    tree = Cleaner().visit(ast.parse(p.read_text()))
-    ast.fix_missing_locations(tree)
+    tree = pre_normalise(ast.parse(p.read_text()), rel, use_ref=False)
     d = {}
+    allf = []
     for qual, fn in walk_functions(tree):
+        allf.append(qual)
         h, names = alpha_hash(fn)
         if names:
             d[qual] = {"hash": h, "locals": names}
-    if d:
-        out[rel] = d
+    d["__functions__"] = sorted(allf)
+    out[rel] = d
 REF_PATH.write_text(json.dumps(out, indent=0, sort_keys=True))
-print("functions with locals:", sum(len(v) for v in out.values()))
+print("functions:", sum(len(v["__functions__"]) for v in out.values()), "with locals:", sum(len(v) - 1 for v in out.values()))
